@@ -36,7 +36,11 @@ package scheduler
 // deduplication map, and only when the task is final (not on the retry on the
 // largest size class).
 //@ func (*task).complete
-//@   props C03 C01
+//@   props C03 C01 C05
+//@   loop 5 invariant transplanted-operations-are-homed-in-the-largest-size-class:
+//@             forall k *invocation :: (k in t.operations) ==> t.operations[k].invocation.sizeClassQueue == largestSCQ
+//@   at call schedule#2 assert retried-operations-are-homed-in-the-largest-size-class:
+//@             forall k *invocation :: (k in t.operations) ==> t.operations[k].invocation.sizeClassQueue == largestSCQ
 //@   ensures completing-a-queued-task-takes-it-out-of-the-queue:
 //@             old(t.executeResponse) == nil && old(t.currentWorker) == nil ==> unqueued(t) == 1
 //@   requires executeResponse != nil
@@ -256,3 +260,19 @@ package scheduler
 //@ func (*operation).enqueue
 //@   props C04
 //@   at call heapPushOrFix#1 assert resorted-with-a-refreshed-head-priority: priorefreshed(i) == 1 && arg0 == &i.parent.queuedChildren && arg1 == i.queuedChildrenIndex && arg2 == i
+
+// ---------------------------------------------------------------------------
+// A retry is queued on the size class selected for it (C05)
+//
+// operation.enqueue queues an operation under o.invocation. When a task is
+// retried on the largest size class, every one of its operations must
+// therefore be re-homed under an invocation of that size class queue, not
+// merely be listed under such an invocation in t.operations.
+//@ func (*platformQueue).addSizeClassQueue
+//@   props C05
+//@   ensures root-invocation-belongs-to-the-new-queue: r0.rootInvocation.sizeClassQueue == r0
+//@ func (*sizeClassQueue).getOrCreateInvocation
+//@   props C05
+//@   at call incrementInvocationsCreatedTotal#1 assert new-invocations-belong-to-this-queue: iChild.sizeClassQueue == scq && iChild.parent == i
+//@   ensures_assumed r0.sizeClassQueue == scq -- representation invariant of the invocation tree, not proved: the root belongs to its queue (addSizeClassQueue, proved) and a child belongs to its parent's queue (children are only created here: new-invocations-belong-to-this-queue, proved); carrying that over the whole tree needs an ownership invariant on the children maps that the engine cannot state cheaply
+// (the loop invariant and the assertion that use this are part of the contract of (*task).complete above)
